@@ -348,6 +348,59 @@ class WaiterObserver:
                 return
 
 
+def goaway_consumed(wire):
+    """Has the client read the GOAWAY frame the HTTP/2 peer of this wire has sent?"""
+    p = getattr(wire, "peer", None)
+    for _ in range(5):
+        if p is None:
+            return False
+        if getattr(p, "goaway_sent", False):
+            off = getattr(p, "goaway_offset", None)
+            return off is not None and wire.nread >= off
+        p = getattr(p, "inner", None)
+    return False
+
+
+class TerminatedAssignObserver:
+    """C07: 'a request waits only while no pooled connection can take it': a request
+    handed a connection on which the client has already read a GOAWAY - which will never
+    open another stream - and found still parked on it at a quiescent point, while the
+    pool could have served it otherwise, is waiting for nothing.  Requests assigned
+    *before* the GOAWAY was read are not judged (httpcore keeps them where they are)."""
+
+    prop = "C07"
+
+    def setup(self, world, pool):
+        self.w = world
+        self.pool = pool
+        self.suspects = []
+        self.flagged = False
+        world.on_assign = self.on_assign
+
+    def on_assign(self, preq, conn):
+        if conn is None or self.flagged:
+            return
+        w = self.w
+        for wid in sorted(reachable_wires([conn])):
+            wire = w.wires[wid]
+            if wire.state == "open" and goaway_consumed(wire):
+                self.suspects.append((preq, conn, wid, w.now))
+                w.probes["assigned_after_goaway"] += 1
+
+    def on_quiescent(self):
+        if self.flagged or not self.suspects:
+            return
+        reqs = list(getattr(self.pool, "_requests", None) or ())
+        for preq, conn, wid, t in self.suspects:
+            if any(r is preq for r in reqs) and getattr(preq, "connection", None) is conn \
+                    and self.w.wires[wid].state == "open":
+                self.flagged = True
+                self.w.violate(self.prop, "request-parked-on-terminated-connection",
+                               {"wire": wid, "assigned_at": t, "t": self.w.now,
+                                "info": [c.info() for c in self.pool.connections]})
+                return
+
+
 def deadlock_oracle(res, prop="C07"):
     if res.error == "deadlock":
         sites = tuple(sorted({str(b[1]) for b in (res.blocked or [])}))
